@@ -33,6 +33,10 @@ CLAIMED = {
    text="Proof (partial): Append and Seal are proved to write nothing that existed before the call (strict frame: every store, map update, in-place append and callee effect is an obligation against 'modifies nothing'), SymbolTable.Clone is proved to own a fresh backing array, and the new token's envelope is proved to carry the parent's signed blocks unchanged.",
    note="Not yet under contract for this property: CreateBlock, block builders, GetBlockID, Authorize, printing; so only the append/seal part of the statement is decided.",
    technique=T, ref="4/C08"),
+ "C09": dict(
+   text="Proof (partial): Seal is proved to keep the envelope (same authority block and signed blocks, same root key id), to copy block contents and symbols unchanged, to replace the proof by a signature of exactly the seal payload of the last block under the held next secret (so the closing proof verifies whenever the parent's did: seal_verifies), and both Seal and Append are proved to refuse a token without a next secret (sealed) with an error and no token. The lemma same_envelope_same_chain (proved from the definitions) turns 'same envelope' into 'the chain verifies under the same root key'; with authorizerFor's accept <=> chain-and-proof contract the sealed token is accepted exactly when its parent was.",
+   note="Assumed: ed25519 sign-then-verify, protobuf round trip (so 'still holds after serialization' rests on the assumed Marshal/Unmarshal contract). Premise of seal_verifies: the last block's algorithm number is non-negative (it is 0 for every token that verifies). Not decided: 'same authorization outcome for every authorizer' as one statement (it is the composition of content_same with Authorize reading only that content - a relational statement); rejection of an altered seal follows from the iff of C01 plus unforgeability, which no contract expresses.",
+   technique=T, ref="4/C09"),
  "C10": dict(
    text="Proof: a panic-freedom sweep over every function under contract (95 functions): each nil dereference, index, slice bound, type assertion, division, unhashable map key, nil map write, explicit panic and panicking library precondition (ed25519 key/seed lengths) is an obligation proved under the invariants that decoding and the builders establish (wfToken, blockWF, termWF...).",
    note="Functions not yet under contract are not covered (Unmarshal's decode path, Authorize, printing, parser): listed in evidence. Out-of-memory and stack depth are not panics a contract can see. Dependencies are trusted to satisfy their assumed contracts.",
@@ -49,6 +53,10 @@ CLAIMED = {
    text="Proof: the key-selection closures are proved against the statement (id present and registered -> that key; id present and unknown -> ErrNoPublicKeyAvailable, never the default; no id -> default or the error); newBiscuit stores the identifier given by the options; Append and Seal are proved to carry the parent's identifier (value semantics of *uint32).",
    note="Assumed: protobuf keeps the optional field across serialisation. Not yet under contract: AuthorizerFor's use of the selected key and Build's passing of the option (planned).",
    technique=T, ref="4/C16"),
+ "C17": dict(
+   text="Proof (partial): RevocationIds is proved to return exactly one identifier per block, in order: the authority block's signature followed by each later block's signature as stored in the signed envelope (the bytes an independent decoder finds there); Append and Seal are proved to keep the parent's signed blocks (same objects, never written), so a derived token's identifiers begin with the parent's.",
+   note="Not decided: uniqueness of identifiers of blocks signed at different times - it rests on the freshness of the per-block key pair and the signature scheme, which contracts over uninterpreted ed25519 cannot express. Stability across serialization is the assumed protobuf contract.",
+   technique=T, ref="4/C17"),
  "C19": dict(
    text="Proof (partial) by strict write frames instead of schedule exploration: authorizerFor, Append and Seal are proved to perform no write to memory that existed before the call (including in-place appends into spare capacity of shared slices), and SymbolTable.Clone is proved to own its capacity; without writes to shared locations no interleaving can race on them.",
    note="Not yet under contract for this property: Authorize/Query, printing, GetBlockID, CreateBlock and builders, Serialize; sharing a parser.Parser is an assumption about participle. Assumed: library calls on shared read-only arguments are safe for concurrent use.",
